@@ -397,6 +397,12 @@ Check(e) ==
                  [] e.name = "cs_set" -> one("retfq") /\ ins[1].c = Lo(v, 16)
                  [] e.name = "ds_set" -> one("mov_to_sreg") /\ ins[1].a = W(3) /\ ins[1].c = Lo(v, 16)
                  [] e.name = "swapgs" -> one("swapgs")
+                 [] e.name = "cr3_write_raw" -> one("mov_to_cr") /\ ins[1].a = W(3) /\ ins[1].c = OrW(v, Lo(w, 16))
+                 [] e.name = "cr3_write_pcid" -> one("mov_to_cr") /\ ins[1].a = W(3) /\ ins[1].c = OrW(v, Lo(w, 12))
+                 [] e.name = "star_raw" ->       \* IA32_STAR: syscall base in bits 32..47, sysret base in 48..63, low half kept
+                       LET ws == SelectSeq(ins, LAMBDA i : i.m = "wrmsr") IN
+                       Len(ws) = 1 /\ ws[1].a = << 129, 49152, 0, 0 >>
+                       /\ ws[1].c[3] = Lo(w, 16)[1] /\ ws[1].c[4] = Lo(v, 16)[1]
                  [] e.name = "cr0_write_raw" -> one("mov_to_cr") /\ ins[1].a = W(0) /\ ins[1].c = v
                  [] e.name = "cr4_write_raw" -> one("mov_to_cr") /\ ins[1].a = W(4) /\ ins[1].c = v
                  [] e.name = "dr7" -> Len(ins) = 2 /\ ins[1].m = "mov_to_dr" /\ ins[1].a = W(7) /\ ins[1].c = v
